@@ -1,5 +1,6 @@
 import JanetModel.Lib.Format
 import JanetModel.Lib.CLoop
+import JanetModel.Gen.Lib
 /- C17 (session 4): mirror of pp.c `scanformat`, the directive scanner of `janet_formatbv` (string/format, buffer/format):
    flags, width (≤ 2 digits), `.precision` (≤ 2 digits), the two error exits, and the construction of the `snprintf` format
    in the local `char form[MAX_FORMAT]`.  Core Lean only.  Theorems in Lib/FormatCProofs.lean.
@@ -94,6 +95,56 @@ def scanformat (rest : Bytes) : R Scan := do
   let c ← idx s (p : Int)
   let (pr, p) ← (if c = 46 then twoDigits s (p + 1) else pure ([], p) : R (Bytes × Nat))
   finish s p w pr
+
+/-! ## the per-directive item step of `janet_formatbv` / `janet_buffer_format` (session 4c)
+
+     char form[MAX_FORMAT], item[MAX_ITEM];   int nb = 0;
+     …  nb = snprintf(item, MAX_ITEM, form, <argument>);  …                      (one of the conversion cases)
+     if (nb >= MAX_ITEM) janet_panic("format buffer overflow");
+     if (nb > 0) janet_buffer_push_bytes(b, (uint8_t *) item, nb);
+
+   `snprintf(item, bound, form, x)` is specified by C99 7.19.6.5 in terms of the *complete* rendering `full` of the directive
+   (what `sprintf` would write; a parameter here): it returns `full.length` whether or not that fits, stores the first
+   `min(full.length, bound − 1)` bytes followed by a NUL when `bound > 0`, and leaves the rest of `item[]` indeterminate
+   (`indeterminate` below, a value that is not a byte).  Writing outside `item[size]`, and `memcpy` reading outside it, is `.ub`.
+   The array size, the bound, the limit and the comparison operator are taken from the current pp.c (Gen/Lib.lean). -/
+
+/-- content of an `item[]` cell that no one has written -/
+def indeterminate : Nat := 256
+
+/-- `snprintf(item, bound, form, x)` where the complete rendering of the directive is `full`: (`item[]` afterwards, return value) -/
+def snprintfItem (size bound : Nat) (full : Bytes) : R (Array Nat × Int) :=
+  if bound = 0 then .ok (Array.replicate size indeterminate, (full.length : Int)) else
+  let kept := full.take (bound - 1)
+  if kept.length + 1 > size then .ub else                                 -- the terminator would be written outside item[]
+  .ok ((kept ++ [0] ++ List.replicate (size - (kept.length + 1)) indeterminate).toArray, (full.length : Int))
+
+/-- `janet_buffer_push_bytes(b, (uint8_t *) item, nb)`: `memcpy(b->data + b->count, item, nb)` -/
+def pushItem (out : Bytes) (item : Array Nat) (nb : Int) : R Bytes :=
+  if nb < 0 then .ub else
+  if nb.toNat ≤ item.size then .ok (out ++ item.toList.take nb.toNat) else .ub
+
+/-- the statements after `scanformat` for a conversion that goes through `snprintf`; `ge` = the overflow test is
+    `nb >= limit` (true) or `nb > limit` (false) -/
+def itemStep (size bound limit : Nat) (ge : Bool) (out full : Bytes) : R Bytes := do
+  let (item, nb) ← snprintfItem size bound full
+  if (if ge then nb ≥ (limit : Int) else nb > (limit : Int)) then .panic else do   -- "format buffer overflow"
+  if nb > 0 then pushItem out item nb else pure out
+
+/-- the item step as it stands in the current `janet_formatbv` (janet_formatc, janet_formatb, error messages) -/
+def formatbvItem (out full : Bytes) : R Bytes :=
+  itemStep Gen.Lib.formatbvItemSize Gen.Lib.formatbvSnprintfBound Gen.Lib.formatbvOverflowLimit Gen.Lib.formatbvOverflowGe out full
+
+/-- the item step as it stands in the current `janet_buffer_format` (string/format, buffer/format, printf family) -/
+def bufferFormatItem (out full : Bytes) : R Bytes :=
+  itemStep Gen.Lib.bufferFormatItemSize Gen.Lib.bufferFormatSnprintfBound Gen.Lib.bufferFormatOverflowLimit
+    Gen.Lib.bufferFormatOverflowGe out full
+
+/-- the documented limit: an item of at most 255 bytes (`MAX_ITEM` 256 with the terminator) -/
+def maxItem : Nat := 256
+
+/-- reference: the item is appended exactly, or the call raises because it does not fit -/
+def itemSpec (out full : Bytes) : R Bytes := if full.length ≥ maxItem then .panic else .ok (out ++ full)
 
 /-- the conversion character must not be a third digit; its offset is what has been consumed -/
 def parseTail (len : Nat) (w : Bytes) (p : Option Bytes) (r3 : Bytes) : Option (Nat × Bytes × Bytes) :=
